@@ -162,8 +162,12 @@ func (p *redisProc) StopListen() error {
 }
 
 func (p *redisProc) Stop() error {
-	p.l.Stop()
+	// Stop accepting firstly, then stop the upstream before closing the
+	// established connections: a session whose request is waiting for a
+	// silent backend could only exit once the upstream has answered it.
+	p.l.Drain()
 	p.u.Stop()
+	p.l.Stop()
 	p.wg.Wait()
 	return nil
 }
